@@ -5,6 +5,7 @@ proxy; after every history of the collection's fetch/render jobs the response fo
 compared with the reference mapping computed from the *model's* job table (vlib/mon/qmodel.py).
 """
 import json
+import os
 import random
 import re
 import urllib.parse
@@ -27,7 +28,7 @@ ASSUMPTIONS = [
     "finish payloads are the ones real workers send: result dict {url,size,suggested_filename} or None; "
     "error None or a non-empty string",
 ]
-REQUIRED = {"status_checks": 500, "state_finished": 20, "state_failed": 20, "state_progress": 100,
+REQUIRED = {"worker_jobs": 8, "status_checks": 500, "state_finished": 20, "state_failed": 20, "state_progress": 100,
             "filenames_checked": 1000, "other_writer_present": 20}
 LEVEL_TEXT = ("Exploration: every history to depth 4 (quick) / 5 (thorough) of the two jobs of a collection on the "
               "real queue code, status asked through the real Application.do_render_status for three writers and "
@@ -54,6 +55,8 @@ def plan(tier, seed):
                for i in range(n)]
     shards += [{"kind": "names", "shard": i, "count": 1500 if tier == "quick" else 25000, "seed": seed}
                for i in range(n)]
+    # the worker side: a real qserve, a real qs.slave worker whose render command ends in every way, real status
+    shards += [{"kind": "worker", "shard": 0, "seed": seed, "runs": 1 if tier == "quick" else 5}]
     return shards
 
 
@@ -337,6 +340,17 @@ def run_shard(desc, R):
     logging.disable(logging.CRITICAL)
     import io
     import sys
+    if desc["kind"] == "worker":
+        from ..mon import qworker
+        scratch = os.environ.get("VERIF_SCRATCH_DIR", "/var/tmp")
+        for i in range(desc["runs"]):
+            findings, obs = qworker.run(scratch)
+            for k, v in obs.items():
+                R.count(k, v)
+            R.case(h64("worker", desc["seed"], i), True, sample={"worker_modes": sorted(qworker.MODES)})
+            for key, what in findings:
+                R.violation(key, what, {"worker": True})
+        return
     if desc["kind"] == "names":
         from mwlib.core import nserve
         rnd = random.Random("C19n:%s:%s" % (desc["seed"], desc["shard"]))
